@@ -13,6 +13,8 @@ var sweepFailed bool
 
 // TestExh_C16 first runs a handful of directed histories (one per session script and per way
 // of ending a session, without and with a 5 ms delay of the close notification), then
+// the same offsets of the stub->runtime stream over the synchronous transport (net.Pipe; the
+// runtime->stub stream too in the thorough tier), then
 // enumerates the byte offsets completely: for each direction and every k from 0
 // to the size of a whole healthy handshake (connect, register, configure, synchronize) plus
 // two, the history [Start with the connection cut after k bytes] followed by the epilogue
@@ -80,12 +82,42 @@ func TestExh_C16(t *testing.T) {
 			)
 		}
 	}
+	// the stub is stopped, or loses its connection, while it writes a large frame
+	for _, sync := range []bool{false, true} {
+		h := &Script{Kind: "healthy", Activate: true, Sync: sync}
+		for _, stall := range []bool{true, false} {
+			directed = append(directed,
+				[]Action{{Op: "start", Script: h}, {Op: "bulkstop", KB: 3000, Stall: stall, WaitMs: 20}},
+				[]Action{{Op: "start", Script: h}, {Op: "wait"}, {Op: "bulkdrop", KB: 3000, Stall: stall, WaitMs: 5}},
+			)
+		}
+	}
 	for _, acts := range directed {
 		for _, dl := range [][]int{nil, {5}} {
 			run(C16Case{Actions: acts, DelayConnClosed: dl})
 		}
 	}
 	r.SetExtra("directed_cases", n)
+	nd := n
+
+	// the synchronous transport: every offset of the stub->runtime stream (there a drop inside
+	// a frame is a short write of the stub), taken byte by byte up to the cut; the other
+	// direction in the thorough tier
+	if !ev.Known(knownD10) {
+		for d := 0; d < 2; d++ {
+			if d == r2s && (!ev.Thorough() || ev.Known(knownD8)) {
+				continue
+			}
+			for k := int64(0); k <= h.total[d]+2; k++ {
+				sc := &Script{Kind: "cut", Dir: dirNames[d], K: int(k), Sync: true}
+				if k%2 == 1 {
+					sc.Chunks = []int{1}
+				}
+				run(C16Case{Actions: []Action{{Op: "start", Script: sc}}})
+			}
+		}
+	}
+	r.SetExtra("sync_sweep_cases", n-nd)
 
 	for d := 0; d < 2; d++ {
 		if d == r2s && ev.Known(knownD8) {
